@@ -144,6 +144,17 @@ func (s *Solver) BeginPath() {
 	}
 }
 
+// SetTimeout changes the per-query time limit (z3 only; cvc5's limit is a command-line
+// option fixed at start-up).
+func (s *Solver) SetTimeout(ms int) {
+	if ms <= 0 || ms == s.timeout || !strings.HasPrefix(s.kind, "z3") {
+		return
+	}
+	s.timeout = ms
+	s.send(fmt.Sprintf("(set-option :timeout %d)", ms))
+	s.flush()
+}
+
 func (s *Solver) EndPath() {
 	s.send("(pop 1)")
 	s.depth = 0
